@@ -706,6 +706,26 @@ def interactions(rng):
         decls.append("packet Es%d {\n  %s\n}\n" % (i, ",\n  ".join(pre + hdr + ["r%d: Rec%d%s" % (i, i, shape)])))
         out.append(e() + "\n".join(decls))
 
+    # F6: a size field over an array of enums or of constant-size structs whose element width in octets differs from the
+    # width of the size field in octets (a seeded change computed the size as count * size-field width), alone in its
+    # group and next to other fields
+    for i in range(2):
+        decls = []
+        packets = []
+        for j, (ew, sw) in enumerate(rng.sample([(8, 16), (16, 8), (24, 8), (16, 12), (32, 16), (24, 16), (16, 24), (8, 12)], 3)):
+            en = "Ez%d_%d" % (i, j)
+            top = (1 << ew) - 1
+            decls.append("enum %s : %d {\n  A = 1,\n  B = 2,\n  C = %d,\n  R = 0x10..0x1f,\n  Z = ..\n}\n" % (en, ew, top))
+            fill = (-sw) % 8
+            hdr = ["_size_(x%d_%d): %d" % (i, j, sw)] + (["q%d_%d: %d" % (i, j, fill)] if fill else [])
+            if rng.random() < 0.5:
+                hdr.reverse()
+            tail = ["t%d_%d: 8" % (i, j)] if rng.random() < 0.5 else []
+            packets.append("packet Sz%d_%d {\n  %s\n}\n" % (i, j, ",\n  ".join(hdr + ["x%d_%d: %s[]" % (i, j, en)] + tail)))
+        decls.append("struct Fx%d {\n  a: 8,\n  b: 16\n}\n" % i)
+        packets.append("packet Sx%d {\n  _size_(y%d): %d,\n  y%d: Fx%d[]\n}\n" % (i, i, rng.choice([8, 16]), i, i))
+        out.append(e() + "\n".join(decls + packets))
+
     # F3: size-only children below a derived parent with fields
     for i in range(3):
         decls = ["packet Rt%d {\n  k: 8,\n  %s_payload_\n}\n" % (i, rng.choice(["", "g: 8,\n  "]))]
